@@ -88,6 +88,19 @@ theorem C03_lock_modes :
     Gen.memproxySharesLockSet = true ∧ Gen.memproxyBatchOrca = "L1L2Batch" := by
   decide
 
+/-- How the lock set is wired (regenerated facts): both constructors — the one for the main port
+    and the one that re-uses an existing lock set for the batch port — store the slot's write
+    lockers in `locks` and its read lockers in `rlocks`; `getlock` hands out `rlocks[bucket]` for
+    read mode and `locks[bucket]` otherwise, the bucket coming from the hash of the key it is
+    given; every keyed method asks for the lock of the request's own key. -/
+theorem C03_lock_wiring :
+    Gen.lockedCtorWiring = [("Locked", "locks", "locks"), ("Locked", "rlocks", "rlocks"),
+      ("LockedWithExisting", "locks", "locks"), ("LockedWithExisting", "rlocks", "rlocks")] ∧
+    Gen.getlockReadField = "rlocks" ∧ Gen.getlockWriteField = "locks" ∧ Gen.getlockHashesKey = true ∧
+    (∀ n ∈ ["Set", "Add", "Replace", "Append", "Prepend", "Delete", "Touch", "Gat"], (n, "req.Key") ∈ Gen.getlockKeyArg) ∧
+    (∀ n ∈ ["Get", "GetE"], (n, "key") ∈ Gen.getlockKeyArg) := by
+  decide
+
 /-- The stripe is a function of the key, within the table. -/
 theorem C03_stripe_function (bits : Nat) (k : Bytes) : stripeOf bits k < 2 ^ bits := by
   unfold stripeOf
